@@ -1,4 +1,6 @@
 pub mod core;
+pub mod expr;
+pub mod exprgen;
 pub mod gen;
 pub mod mval;
 pub mod props;
